@@ -89,13 +89,16 @@ def _work(task):
             return dict(custom=_G["mod"].custom_checks(task[1], task[3], task[2]))
         except BaseException as e:  # pylint: disable=broad-except
             return dict(scenario="custom", part=None, crashed=True, error="".join(traceback.format_exception(type(e), e, e.__traceback__))[-3000:])
-    sc_idx, part, deadline, seed = task
+    sc_idx, part, deadline, seed, idx, total, nproc = task
     sc = _G["scenarios"][sc_idx]
     now = time.time()
     if now > deadline:
         return dict(scenario=sc.name, part=part, skipped=True)
     from engine import symdrv
-    budget = min(sc.part_budget, deadline - now)
+    # fair share of what is left: (time left) x workers / (partitions not yet started), so that late partitions are not starved by
+    # early ones; partitions that exhaust early hand their unused time on to the rest
+    share = (deadline - now) * nproc / max(1, total - idx)
+    budget = min(sc.part_budget, deadline - now, max(share, 3.0))
     try:
         st = symdrv.explore_partition(sc, part, budget, per_path_timeout=sc.per_path_timeout, seed=seed,
                                       known=_ScKnown(_G["known"], sc.name))
@@ -167,12 +170,15 @@ def main(prop, tier, seed):
     tasks = []
     if hasattr(mod, "custom_checks"):
         tasks.append(("custom", tier, deadline, seed))
+    nproc = int(os.environ.get("VERIF_JOBS", "16"))
+    n_parts = sum(len(sc.partitions) for sc in scenarios)
+    idx = 0
     for i, sc in enumerate(scenarios):
         for part in sc.partitions:
-            tasks.append((i, part, deadline, seed))
+            tasks.append((i, part, deadline, seed, idx, n_parts, min(nproc, max(1, n_parts))))
+            idx += 1
     results = []
     custom = []
-    nproc = int(os.environ.get("VERIF_JOBS", "16"))
     if tasks:
         # warm imports before forking
         from engine import symdrv
